@@ -1,9 +1,23 @@
-"""C12 -- each instruction performs exactly the data accesses its definition implies."""
+"""C12 -- each instruction performs exactly the data accesses its definition implies.
+
+Lean side (Py65.Props.C12): for every declared opcode of each device and every well-formed state,
+the events one step() of the REGENERATED model appends to its access log are, as a multiset, the
+opcode fetch + Spec.fetched operand bytes + Spec.dataAccesses (accesses_nmos6502 / accesses_cmos /
+accesses_org16, no opcode excluded, no side condition); interrupts, reset and the waiting 65C02
+likewise.  Here: translator validation (the generated model's log equals the real device's log,
+event for event) and the Spec-vs-real differential on the access multiset (failing-input search)."""
 import cpu_props
 
 ID = 'C12'
-LEAN_MODULES = []
-NAMESPACES = []
+LEAN_MODULES = ['Py65.Props.C12']
+NAMESPACES = ['Py65.Props.C12']
+EXPECTED_THEOREMS = ['Py65.Props.C12.accesses_nmos6502', 'Py65.Props.C12.accesses_cmos', 'Py65.Props.C12.accesses_org16',
+                     'Py65.Props.C12.accesses_waiting', 'Py65.Props.C12.irq_accesses', 'Py65.Props.C12.nmi_accesses',
+                     'Py65.Props.C12.fetched_sublist']
+TRUSTED = ['Spec.Access / Spec.AccessAll (hand-written: the accesses each instruction definition implies)',
+           'translator harness/py2lean.py: memGet/memSet log every memory[...] access of the Python source; validated on every run by comparing the generated model\'s access log with a recording memory under the real device, event for event',
+           'getc/putc devices attached by address (py65/monitor.py) are C18; subscribers see one callback per logged event by C10/C11']
+ASSUMPTIONS = ['write values are erased in the compared multiset (addresses and kinds only), as the property states']
 LEVEL = 'proof'
 RULE = ('every declared opcode x boundary-biased states (registers, operands, pointers and PC aimed at page/wrap boundaries); distinct = distinct (opcode, register-class, pc-quadrant, touched-cell-count) signatures of executions that ran')
 
